@@ -31,4 +31,7 @@ type SignatureProposalConfirmationErrorRequest struct {
 	ParticipantId int
 	Error         *FSMError
 	CreatedAt     time.Time
+	// BatchID names the signing batch the failure belongs to. It is empty in reports written by
+	// older versions (and in reports that do not concern a batch); such a report is judged as before
+	BatchID string `json:",omitempty"`
 }
